@@ -29,6 +29,8 @@ func init() {
 	generators["healthleak"] = genHealthLeak
 	generators["holdrace"] = genHoldRace
 	generators["twocause"] = genTwoCause
+	generators["lateanswer"] = genLateAnswer
+	generators["lateregister"] = genLateRegister
 }
 
 func anyLatency(r rng, h time.Duration) Latency {
@@ -745,6 +747,33 @@ func genConnection(r rng, k int) *Spec {
 		s.Sample = sampleFor(h)
 		return s
 	}
+	if k%7 == 6 && G >= sec {
+		// disconnect while leading; leadership lost by another path; reconnect while a
+		// follower; leadership regained - all inside one grace period: the old grace timer
+		// has nothing to say about the new term
+		t := 1*sec + r.dur(0, h)
+		s.Insts = s.Insts[:1]
+		s.Actions = s.Actions[:1]
+		s.Actions = append(s.Actions, Action{At: t, Kind: "conn", Inst: "i0", Val: "D"})
+		switch r.IntN(3) {
+		case 0:
+			s.Actions = append(s.Actions, Action{At: t + G/10, Kind: "output", Inst: "g0", Val: `{"id":"usurper","token":"u-3"}`})
+		case 1:
+			s.Actions = append(s.Actions, Action{At: t + G/10, Kind: "outdel", Inst: "g0"}, Action{After: ms, Kind: "output", Inst: "g0", Val: `{"id":"usurper","token":"u-4"}`})
+		default:
+			s.Actions = append(s.Actions, Action{At: t + G/10, Kind: "rule", Rule: &FaultRule{Client: "i0", Op: "Get", ToOrd: 1 << 20, To: t + G/10 + 50*ms, Kind: "err", Err: "timeout"}},
+				Action{After: ms, Kind: "validate", Inst: "i0", Val: "bg", OrDemote: true},
+				Action{After: 10 * ms, Kind: "outdel", Inst: "g0"}, Action{After: ms, Kind: "output", Inst: "g0", Val: `{"id":"usurper","token":"u-5"}`})
+		}
+		s.Actions = append(s.Actions,
+			Action{At: t + 2*G/10, Kind: "conn", Inst: "i0", Val: "R"},
+			Action{At: t + 3*G/10, Kind: "outdel", Inst: "g0"},
+		)
+		s.Tags = append(s.Tags, "regain")
+		s.Duration = 2*G + 4*sec
+		s.Sample = sampleFor(h)
+		return s
+	}
 	t := 1*sec + r.dur(0, h)
 	L := 1 + r.IntN(6)
 	gaps := []time.Duration{0, ms, 99 * ms, 100 * ms, 101 * ms, G - ms, G, G + ms, 2 * G, G / 2, 3 * sec}
@@ -1431,7 +1460,21 @@ func genPrioSucc(r rng, k int) *Spec {
 		s.Actions = append(s.Actions, Action{At: t, Kind: "start", Inst: s.Insts[p].Name})
 		t += r.pickD(0, h/2, 2*h)
 	}
+	if k%3 == 2 {
+		// a hiccup of the store while the instances start (reads of the takeover-enabled
+		// ones fail); everything after it is fault-free again and has to be prompt
+		for _, is := range s.Insts {
+			if is.Takeover {
+				s.Rules = append(s.Rules, FaultRule{Client: is.Name, Op: "Get", To: t + 4*h, Kind: "err", Err: r.pickS("timeout", "noresponders", "io")})
+			}
+		}
+		s.PromptAfter = t + 4*h + s.TTL + h
+		s.Tags = append(s.Tags, "early-read-faults")
+	}
 	t += 8 * h
+	if s.PromptAfter > 0 {
+		t += s.TTL
+	}
 	for round := 0; round < 3; round++ {
 		var sv StopVariant
 		switch r.IntN(3) {
@@ -1688,6 +1731,118 @@ func genTwoCause(r rng, k int) *Spec {
 	rb = append(rb, Action{Kind: "spin", D: spin}, Action{Kind: "release", Break: "tc"})
 	s.Reactions = []Reaction{{Break: "tc", Actions: rb}}
 	s.Duration = t0 + 8*sec
+	s.Sample = sampleFor(h)
+	return s
+}
+
+// ---------------------------------------------------------------------------
+// lateanswer: the record goes away, a follower's acquisition round begins, and the store
+// applies the round's first Create but answers it later than the TTL: by then the record
+// written by that Create has expired again. The round goes on (it has used one of its
+// four attempts and waits its backoff before the next).
+// ---------------------------------------------------------------------------
+
+// LateAnswerTotal is the size of the enumeration.
+func LateAnswerTotal() int { return 3 * 2 * 2 * 3 }
+
+func genLateAnswer(r rng, k int) *Spec {
+	idx := k % LateAnswerTotal()
+	how := []string{"graceful", "outdel", "outexpire"}[idx%3]
+	idx /= 3
+	h := []time.Duration{200 * ms, 500 * ms}[idx%2]
+	idx /= 2
+	ratio := []int{3, 5}[idx%2]
+	idx /= 2
+	delta := []time.Duration{ms, 30 * ms, h}[idx%3]
+	s := &Spec{TTL: time.Duration(ratio) * h, NoPreempt: true, Tags: []string{"lateanswer", how}}
+	s.Lat = Latency{Min: ms, Max: r.pickD(2*ms, 10*ms)}
+	s.Insts = mkInsts(2+r.IntN(2), 1, h)
+	s.Breaks = []BreakSpec{{Name: "la", Client: "i1", Op: "Create", Nth: 1, Phase: "resp"}}
+	s.Actions = append(s.Actions, Action{At: 10 * ms, Kind: "start", Inst: "i0"}, Action{At: 300 * ms, Kind: "start", Inst: "i1"})
+	if len(s.Insts) > 2 {
+		// a third candidate that comes late: it finds whatever the round left behind
+		s.Actions = append(s.Actions, Action{At: 3*sec + s.TTL + 2*h, Kind: "start", Inst: "i2"})
+	}
+	s.Actions = append(s.Actions, Action{At: 3 * sec, Kind: "arm", Break: "la"})
+	switch how {
+	case "graceful":
+		s.Actions = append(s.Actions, Action{Chain: true, Kind: "stop", Inst: "i0", Stop: &StopVariant{DeleteKey: true, Wait: true, Timeout: 5 * sec}})
+	case "outdel":
+		s.Actions = append(s.Actions, Action{Chain: true, Kind: "outdel", Inst: "g0"}, Action{Chain: true, Kind: "stop", Inst: "i0", Stop: &StopVariant{Plain: true}})
+	case "outexpire":
+		s.Actions = append(s.Actions, Action{Chain: true, Kind: "outexpire", Inst: "g0"}, Action{Chain: true, Kind: "stop", Inst: "i0", Stop: &StopVariant{Plain: true}})
+	}
+	s.Actions = append(s.Actions,
+		Action{After: ms, Kind: "waitbreak", Break: "la", D: 10 * sec},
+		Action{After: s.TTL + delta, Kind: "release", Break: "la"},
+	)
+	s.Duration = 12 * h
+	s.Sample = sampleFor(h)
+	return s
+}
+
+// ---------------------------------------------------------------------------
+// lateregister: the application registers its callbacks late - before Start (control),
+// in the middle of the first term, or between two terms. Whatever context a promotion
+// callback is handed, it lives exactly as long as the term it was handed for.
+// ---------------------------------------------------------------------------
+
+// LateRegisterTotal is the size of the enumeration.
+func LateRegisterTotal() int { return 3 * 4 * 2 }
+
+func genLateRegister(r rng, k int) *Spec {
+	idx := k % LateRegisterTotal()
+	when := []string{"before-start", "mid-term", "between-terms"}[idx%3]
+	idx /= 3
+	end := []string{"forge", "ordemote", "health", "outdel"}[idx%4]
+	idx /= 4
+	two := idx%2 == 1
+	h := r.pickD(200*ms, 500*ms)
+	s := &Spec{TTL: 3 * h, NoPreempt: true, Tags: []string{"lateregister", when, end}}
+	s.Lat = Latency{Max: r.pickD(0, 2*ms)}
+	n := 1
+	if two {
+		n = 2
+	}
+	s.Insts = mkInsts(n, 1, h)
+	s.Insts[0].LateCallbacks = true
+	s.Insts[0].BlockPromote = true
+	for i := range s.Insts {
+		s.Insts[i].BlockPromote = true
+	}
+	t1 := 2 * sec // the first term of i0 ends here
+	if when == "before-start" {
+		s.Actions = append(s.Actions, Action{At: 5 * ms, Kind: "register", Inst: "i0"})
+	}
+	s.Actions = append(s.Actions, Action{At: 10 * ms, Kind: "start", Inst: "i0"})
+	if two {
+		s.Actions = append(s.Actions, Action{At: 300 * ms, Kind: "start", Inst: "i1"})
+	}
+	if when == "mid-term" {
+		s.Actions = append(s.Actions, Action{At: 1 * sec, Kind: "register", Inst: "i0"})
+	}
+	switch end {
+	case "forge":
+		s.Actions = append(s.Actions, Action{At: t1, Kind: "output", Inst: "g0", Val: `{"id":"intruder","token":"r"}`},
+			Action{At: t1 + 2*h, Kind: "outdel", Inst: "g0"})
+	case "ordemote":
+		s.Actions = append(s.Actions, Action{At: t1, Kind: "rule", Rule: &FaultRule{Client: "i0", Op: "Get", To: t1 + 50*ms, Kind: "err", Err: "timeout"}},
+			Action{After: ms, Kind: "validate", Inst: "i0", Val: "bg", OrDemote: true})
+	case "health":
+		m := 1 + r.IntN(2)
+		s.Insts[0].HealthOn, s.Insts[0].MaxFail = true, m
+		s.Insts[0].Health = strings.Repeat("h", int(t1/h)) + strings.Repeat("u", m) + strings.Repeat("h", 80)
+	case "outdel":
+		s.Actions = append(s.Actions, Action{At: t1, Kind: "outdel", Inst: "g0"})
+	}
+	if when == "between-terms" {
+		s.Actions = append(s.Actions, Action{At: t1 + h/2, Kind: "register", Inst: "i0"})
+	}
+	if two {
+		// whoever leads afterwards goes away, so that i0 gets (another) term with callbacks registered
+		s.Actions = append(s.Actions, Action{At: t1 + s.TTL + 6*h, Kind: "stop", Inst: "i1", Stop: &StopVariant{DeleteKey: true, Wait: true, Timeout: 5 * sec}})
+	}
+	s.Duration = s.TTL + 8*h
 	s.Sample = sampleFor(h)
 	return s
 }
